@@ -92,8 +92,10 @@ package core
 //@   (typ == "S" && v.S != nil) || (typ == "N" && v.N != nil) || (typ == "BOOL" && v.BOOL != nil) || (typ == "B" && v.B != nil) ||
 //@   (typ == "L" && v.L != nil) || (typ == "M" && v.M != nil) || (typ == "BS" && v.BS != nil) || (typ == "SS" && v.SS != nil) || (typ == "NS" && v.NS != nil)
 
-// KeyText: the text of a string- or number-typed key attribute; the key string is made of exactly these texts
-//@ pred KeyText(v *types.Item, typ string) := (typ == "S" ? *v.S : *v.N)
+// KeyText: the text of a string-, number- or binary-typed key attribute (the three key types DynamoDB has); the key string
+// is made of exactly these texts. A binary value is rendered by fmt's %v of its bytes (fmtv: uninterpreted)
+//@ pred KeyText(v *types.Item, typ string) := (typ == "S" ? *v.S : (typ == "N" ? *v.N : fmtv(v.B)))
+//@ pred KeyTyp(typ string) := typ == "S" || typ == "N" || typ == "B"
 
 //@ func keySchema.GetKey
 //@   pure
@@ -104,8 +106,8 @@ package core
 //@   ensures[C13] ks.RangeKey != "" && ks.HashKey in item && ks.RangeKey in item && !HasType(item[ks.RangeKey], attrs[ks.RangeKey]) ==> result1 != nil
 //@   ensures[C03] ks.Secondary && !(ks.HashKey in item) ==> result1 == nil && result0 == ""
 //@   ensures[C03] ks.Secondary && ks.RangeKey != "" && ks.HashKey in item && HasType(item[ks.HashKey], attrs[ks.HashKey]) && !(ks.RangeKey in item) ==> result1 == nil && result0 == ""
-//@   ensures[C13] result1 == nil && ks.RangeKey == "" && ks.HashKey in item && (attrs[ks.HashKey] == "S" || attrs[ks.HashKey] == "N") ==> result0 == KeyText(item[ks.HashKey], attrs[ks.HashKey])
-//@   ensures[C13] result1 == nil && ks.RangeKey != "" && ks.HashKey in item && ks.RangeKey in item && (attrs[ks.HashKey] == "S" || attrs[ks.HashKey] == "N") && (attrs[ks.RangeKey] == "S" || attrs[ks.RangeKey] == "N") ==>
+//@   ensures[C13] result1 == nil && ks.RangeKey == "" && ks.HashKey in item && KeyTyp(attrs[ks.HashKey]) ==> result0 == KeyText(item[ks.HashKey], attrs[ks.HashKey])
+//@   ensures[C13] result1 == nil && ks.RangeKey != "" && ks.HashKey in item && ks.RangeKey in item && KeyTyp(attrs[ks.HashKey]) && KeyTyp(attrs[ks.RangeKey]) ==>
 //@                result0 == KeyText(item[ks.HashKey], attrs[ks.HashKey]) + "." + KeyText(item[ks.RangeKey], attrs[ks.RangeKey])
 //@   ensures[C13] ks.HashKey in item && HasType(item[ks.HashKey], attrs[ks.HashKey]) && (ks.RangeKey == "" || (ks.RangeKey in item && HasType(item[ks.RangeKey], attrs[ks.RangeKey]))) ==> result1 == nil
 
